@@ -53,6 +53,29 @@ pub fn case(tape: &[u8], ctx: &Ctx) -> Outcome {
             }
         }
     }
+    // gzip input with a hand-built header (FEXTRA / FNAME / FCOMMENT / FHCRC in every combination, made by the
+    // reference generator around a zlib-ng raw deflate body) and an early inflateValidate / inflateGetHeader
+    if t.chance(50) {
+        let first = p.ops.iter().position(|o| matches!(o, Op::IInit { wbits } if *wbits >= 24));
+        if let (Some(first), true) = (first, p.data.len() >= 4) {
+            let cfg = crate::gen::DefCfg { level: 6, strategy: 0, wrap: crate::refimpl::rgzh::Wrap::Raw, wbits: 15, mem_level: 8 };
+            if let Some(body) = crate::gen::deflate_oneshot::<Ng>(&cfg, &p.data, None) {
+                let big = t.bool();
+                let f = crate::refimpl::rgen::gen_gz_fields(&mut t, big);
+                p.comp = crate::refimpl::rgen::gzip_wrap(&f, &body, &p.data);
+                if t.bool() {
+                    p.ops.insert(first + 1, Op::IValidate { v: t.pick(&[0, 0, 1, 2]) });
+                }
+                if t.chance(100) {
+                    p.ops.insert(first + 1, Op::IGetHeader { null: false });
+                }
+                for _ in 0..1 + t.below(3) {
+                    let at = first + 1 + t.below(p.ops.len() - first);
+                    p.ops.insert(at, Op::IInflate { in_len: t.pick(&[1usize, 2, 9, 10, 11, 16, 100, 1000, 70000]), out_len: t.pick(&[0usize, 1, 100, 5000, 70000]), flush: 0 });
+                }
+            }
+        }
+    }
     let p = p;
     let ok = ARENAS2.with(|ar| survives(|| {
         let _ = run_program::<Ng>(&p, ar);
